@@ -167,6 +167,86 @@ theorem removePbc_consecutive {c : Consts} (hc : Std c) (xs : List Vec) (b : Box
   rw [pairDiffs_translate] at he
   exact key e he
 
+/-! ### the molecule loop of `remove_pbc` -/
+
+theorem foldl_set_length (l : List (Nat × Vec)) :
+    ∀ acc : List Vec, (l.foldl (fun acc p => acc.set p.1 p.2) acc).length = acc.length := by
+  induction l with
+  | nil => intro acc; rfl
+  | cons p l ih => intro acc; simp only [List.foldl_cons]; rw [ih]; simp
+
+theorem foldl_set_other (l : List (Nat × Vec)) (i : Nat) :
+    ∀ acc : List Vec, (∀ p ∈ l, p.1 ≠ i) → (l.foldl (fun acc p => acc.set p.1 p.2) acc)[i]? = acc[i]? := by
+  induction l with
+  | nil => intro acc _; rfl
+  | cons p l ih =>
+    intro acc h
+    simp only [List.foldl_cons]
+    rw [ih _ (fun q hq => h q (List.mem_cons_of_mem _ hq))]
+    exact List.getElem?_set_ne (h p (List.mem_cons_self ..))
+
+theorem foldl_set_key (l : List (Nat × Vec)) :
+    ∀ acc : List Vec, (l.map Prod.fst).Nodup → (∀ p ∈ l, p.1 < acc.length) →
+      ∀ p ∈ l, (l.foldl (fun acc p => acc.set p.1 p.2) acc)[p.1]? = some p.2 := by
+  induction l with
+  | nil => intro acc _ _ p hp; simp at hp
+  | cons q l ih =>
+    intro acc hnd hlt p hp
+    simp only [List.map_cons, List.nodup_cons] at hnd
+    simp only [List.foldl_cons]
+    rcases List.mem_cons.mp hp with rfl | hp
+    · rw [foldl_set_other l p.1 _ (fun r hr heq => hnd.1 (heq ▸ List.mem_map_of_mem hr))]
+      simp [hlt p (List.mem_cons_self ..)]
+    · exact ih _ hnd.2 (fun r hr => by simpa using hlt r (List.mem_cons_of_mem _ hr)) p hp
+
+theorem zip_fst_nodup {β : Type} : ∀ (l1 : List Nat) (l2 : List β), l1.Nodup → ((List.zip l1 l2).map Prod.fst).Nodup
+  | [], _, _ => by simp
+  | _ :: _, [], _ => by simp
+  | a :: l1, b :: l2, h => by
+    simp only [List.nodup_cons] at h
+    simp only [List.zip_cons_cons, List.map_cons, List.nodup_cons]
+    refine ⟨?_, zip_fst_nodup l1 l2 h.2⟩
+    intro hm
+    obtain ⟨⟨x, y⟩, hxy, rfl⟩ := List.mem_map.mp hm
+    exact h.1 (List.of_mem_zip hxy).1
+
+/-- One molecule of `remove_pbc`, wherever its atoms sit in the array: its own coordinate sequence is reassembled
+by `remove_pbc_from_coord` and translated as a whole; no other coordinate changes. -/
+theorem removePbcStep_spec {c : Consts} (hc : Std c) (b : Box) (hdet : b.det ≠ 0) (cur : List Vec) (mol : List Nat)
+    (hnd : mol.Nodup) (hlt : ∀ i ∈ mol, i < cur.length) :
+    ∃ cur' san t, removePbcStep c b cur mol = .ok cur' ∧
+      removePbcFromCoord c (mol.filterMap (fun i => cur[i]?)) b = .ok san ∧
+      cur'.length = cur.length ∧
+      (∀ i, i ∉ mol → cur'[i]? = cur[i]?) ∧
+      (∀ (j i : Nat) (w : Vec), mol[j]? = some i → (san.map (fun p => p.add t))[j]? = some w → cur'[i]? = some w) := by
+  obtain ⟨san, hsan, -⟩ := removePbc_spec hc (mol.filterMap (fun i => cur[i]?)) b hdet
+  cases hcen : centroid san with
+  | none =>
+    refine ⟨cur, san, zeroV, ?_, hsan, rfl, fun _ _ => rfl, ?_⟩
+    · simp [removePbcStep, hsan, hcen, bind, Except.bind, pure, Except.pure]
+    · intro j i w _ hw
+      have : san = [] := by
+        unfold centroid at hcen
+        split at hcen
+        · rename_i h; simpa using h
+        · cases hcen
+      simp [this] at hw
+  | some ctr =>
+    obtain ⟨ctrIn, g, hin, -⟩ := moveInside1_spec hc ctr b hdet
+    refine ⟨(List.zip mol (san.map (fun p => p.add (ctrIn.sub ctr)))).foldl (fun acc p => acc.set p.1 p.2) cur,
+      san, ctrIn.sub ctr, ?_, hsan, foldl_set_length _ _, ?_, ?_⟩
+    · simp [removePbcStep, hsan, hcen, hin, bind, Except.bind, pure, Except.pure]
+    · intro i hi
+      apply foldl_set_other
+      intro p hp heq
+      exact hi (heq ▸ (List.of_mem_zip hp).1)
+    · intro j i w hj hw
+      have hz : (List.zip mol (san.map (fun p => p.add (ctrIn.sub ctr))))[j]? = some (i, w) := by
+        rw [List.getElem?_zip_eq_some]; exact ⟨hj, hw⟩
+      have hmem := List.mem_of_getElem? hz
+      exact foldl_set_key _ cur (zip_fst_nodup _ _ hnd)
+        (fun p hp => hlt p.1 (List.of_mem_zip hp).1) (i, w) hmem
+
 /-! ### `repeat_box_coord` -/
 
 theorem mem_intRange (lo hi x : Int) : x ∈ intRange lo hi ↔ lo ≤ x ∧ x < hi := by
